@@ -275,10 +275,15 @@ def check_case(case):
         crop = runner.Crop(name="c7", parent_dir=d, **ckw)
         sow_consts = dict(override) if override else None
     else:
+        # (save_fn=False: the function is not stored with the crop - every
+        # grow below is handed the function anyway)
+        nofn = {"save_fn": False} if core.pick(
+            [n, mode, req, kind, shuffle, "savefn"], 5) == 0 and not \
+            case.get("again") else {}
         crop = xyz.Crop(fn=f, name="c7", parent_dir=d,
                         shuffle=(shuffle if kind in ("cases", "mix2", "cases1")
                                  else False),
-                        **ckw)
+                        **ckw, **nofn)
         sow_consts = dict(constants) if constants else None
 
     # (the batch request may be given to the sow call instead of the
